@@ -145,3 +145,28 @@ def _bee_cfg():
     eng = {"bee_cfg": {"user_key": "0123456789abcdeffedcba9876543210"}}
     return {"config": {"input_binary": os.path.join(d, "app.bin"), "engine_selection": "both", "bee_engine": [eng, dict(eng)], "base_address": 0x60001000},
             "search_paths": None}
+
+
+# ---- IEE key blobs: keys SPSDK invents are drawn inside the constructor call ----------------------------------------------------
+from spsdk.utils.crypto.iee import (IeeKeyBlob, IeeKeyBlobAttribute, IeeKeyBlobKeyAttributes, IeeKeyBlobLockAttributes,  # noqa: E402
+                                    IeeKeyBlobModeAttributes)
+
+inline("spsdk.utils.crypto.iee:IeeKeyBlobAttribute.key1_size", "spsdk.utils.crypto.iee:IeeKeyBlobAttribute.key2_size",
+       "spsdk.utils.crypto.iee:IeeKeyBlobAttribute.ctr_mode")
+IEE_ATTR = Obj(IeeKeyBlobAttribute, lock=IeeKeyBlobLockAttributes, key_attribute=IeeKeyBlobKeyAttributes, aes_mode=IeeKeyBlobModeAttributes)
+
+
+@contract("spsdk.utils.crypto.iee:IeeKeyBlob.__init__")
+def _(self: Obj(IeeKeyBlob), attributes: IEE_ATTR, start_addr: U32, end_addr: U32, key1: Optional[Union[Bytes(16), Bytes(32)]],
+      key2: Optional[Union[Bytes(16), Bytes(32)]], page_offset: Const(0), crc: Const(None)):
+    requires(start_addr <= end_addr and start_addr % 1024 == 0)
+    let(k1=16 if attributes.key_attribute == IeeKeyBlobKeyAttributes.CTR128XTS256 else 32)
+    let(ctr=attributes.aes_mode in (IeeKeyBlobModeAttributes.AesCTRWAddress, IeeKeyBlobModeAttributes.AesCTRWOAddress, IeeKeyBlobModeAttributes.AesCTRkeystream))
+    let(k2=16 if (attributes.key_attribute == IeeKeyBlobKeyAttributes.CTR128XTS256 or ctr) else 32)
+    ensures(self.key1 == key1 if key1 is not None else fresh_in_call(self.key1) and len(self.key1) == k1, label="key1-given-or-fresh-of-the-mode-size")
+    ensures(self.key2 == key2 if key2 is not None else fresh_in_call(self.key2) and len(self.key2) == k2, label="key2-given-or-fresh-of-the-mode-size")
+    modifies(self.attributes, self.start_addr, self.end_addr, self.key1, self.key2, self.page_offset, self.crc_fill)
+    sample_with(lambda rnd: {"self": object.__new__(IeeKeyBlob),
+                             "attributes": IeeKeyBlobAttribute(IeeKeyBlobLockAttributes.UNLOCK, rnd.choice(list(IeeKeyBlobKeyAttributes)), rnd.choice(list(IeeKeyBlobModeAttributes))),
+                             "start_addr": 0x30000000, "end_addr": 0x30001000, "key1": rnd.choice([None, bytes(16), bytes(32)]), "key2": rnd.choice([None, bytes(16)]),
+                             "page_offset": 0, "crc": None})
